@@ -380,6 +380,28 @@ PROPS = {
         "level_text": "Generated configurations probed at generated lifecycle instants and compared with an independently computed RA; counterexample search, not proof.",
         "level_note": "Trusts expectRA/reference (shared document model), testing/synctest, and plugin wrappers whose Prepare injects simulated address/route sources; series with duplicate label identities are unspecified.",
     },
+    "C18": {
+        "pkg": "internal/corerad",
+        "files": ["corerad/zz_verif_C12_test.go", "corerad/zz_verif_sim_test.go", "corerad/zz_verif_adv_test.go", "corerad/zz_verif_mon_test.go", "corerad/zz_verif_C06_test.go", "corerad/zz_verif_C04_test.go", "corerad/zz_verif_C17_test.go", "shared/zz_verif_doc_test.go", "corerad/zz_verif_C18_test.go"],
+        "run": "TestVerif_C18",
+        "level": "exploration",
+        "bubble": True,
+        "quick": {"shards": 8},
+        "thorough": {"shards": 16},
+        "rule": ("sequences of 1..12 NDP messages: RAs with arbitrary header values (hop limit 0..255, M/O, preference, lifetime 0/1/1800/9000/65535 s) and "
+                 "0..6 options (prefix options with repeated prefixes, lengths /0 /8 /32 /64 /128, zero, finite and infinite lifetimes; unknown, route, "
+                 "RDNSS, DNSSL, MTU, SLLA options), RS, NS and NA, from 4 senders (link-local senders get a zone on the Run path), gaps of 0 ns..1 h, wall "
+                 "clock 1970..2100. Two paths: Monitor.handle with an injected clock, compared after every message; and a real Monitor.Run in a synctest "
+                 "bubble (every RA through MarshalMessage/ParseMessage, zone stripped by the listener), compared at the end. Oracle: last-write-wins "
+                 "model of the corerad_monitor_* series in message and option order: counter per (interface, host without zone, type); managed/other "
+                 "gauges; default-route expiry = unix(receipt + lifetime) only when the lifetime is non-zero; per prefix option on-link/autonomous and "
+                 "preferred/valid expiry labelled by the CIDR. Non-trivial: an RA with a prefix option or a repeated sender. Distinct: FNV-64 of the "
+                 "canonical JSON case."),
+        "assumptions": [STAGED, BUBBLE, FAKES, "prefix lengths are within 0..128"],
+        "technique": "rapid property-based testing of message sequences against a last-write-wins reference model (value path and real Run on virtual time)",
+        "level_text": "Random message sequences compared with a reference metric model after every message; counterexample search, not proof.",
+        "level_note": "Trusts the model c18Apply (written from the statement), metricslite's in-memory series and the ndp codec.",
+    },
 }
 
 NOT_APPLICABLE = {}
